@@ -7,6 +7,7 @@ LEVEL = 'proof'
 def build(ctx):
     ctx.task('contracts.emit:task_resolution_size')
     ctx.task('contracts.emit:task_resolve_blobs')
+    ctx.task('contracts.pipeline:task_pipeline')      # assemble() establishes what each pass contract assumes
     common.pass_tasks(ctx, ['resolve_labels', 'resolve_aligns', 'transform_compressible', 'transform_pseudo_instructions', 'resolve_immediates',
                             'resolve_constants', 'resolve_register_aliases'])
     for p in ('resolve_instructions', 'resolve_strings', 'resolve_sequences', 'transform_shorthand_packs', 'resolve_packs', 'resolve_include_bytes'):
